@@ -1,7 +1,7 @@
 //! C20: drives `Shell::{add_to_history,save_history}`, new sessions on one HISTFILE and
 //! the `history -d/-c` builtin; prints the observable state after every op in the same
 //! format as the model's `show_world`.
-//! Case fields: <nlines> line* then ops: A sid now cmd | S sid | N | D sid off | C sid | T
+//! Case fields: <nlines> line* then ops: A sid now cmd | S sid | X sid | N | D sid off | C sid | T
 //! (`now` is ignored by the code: the clock is real; the observed stamp is printed.)
 use crate::util::{hex, unhex_str};
 use brush_builtins::ShellBuilderExt;
@@ -115,6 +115,21 @@ fn main_hist(cases: &[Vec<String>]) {
                         "S" => {
                             if let Some(s) = sessions.get_mut(sid(i + 1)) {
                                 let _ = s.save_history();
+                            }
+                            i += 2;
+                        }
+                        "X" => {
+                            // a save whose write fails: HISTFILE points at /dev/full for this one call
+                            if let Some(s) = sessions.get_mut(sid(i + 1)) {
+                                let _ = s.env_mut().set_global(
+                                    "HISTFILE",
+                                    brush_core::ShellVariable::new("/dev/full".to_string()),
+                                );
+                                let _ = s.save_history();
+                                let _ = s.env_mut().set_global(
+                                    "HISTFILE",
+                                    brush_core::ShellVariable::new(path.to_string_lossy().to_string()),
+                                );
                             }
                             i += 2;
                         }
